@@ -6,6 +6,7 @@ import torch
 from xitorch.optimize import rootfinder, equilibrium, minimize
 from xitorch.integrate import solve_ivp, quad, mcquad
 from xitorch.grad import jac, hess
+from xitorch.linalg import solve
 
 DT = torch.float64
 
@@ -78,9 +79,23 @@ WORKLOADS = [
     W("hess_mv", lambda x, a, b: (a * x ** 3 + b * torch.sin(x) * x).sum(),
       lambda v: hess(v.fcn, params=(_x0(), *v.params), idxs=0).mv(torch.tensor([1.0, -2.0, 0.5], dtype=DT)),
       rtol=1e-10, atol=1e-12),
+    # more than 5 unknowns: the backward linear solve of rootfinder is iterative by default, and its own backward (second order)
+    # has to re-evaluate the Jacobian operator with the object's tensors substituted (round-4 seed C09/10)
+    W("rootfinder_7_unknowns", lambda y, a, b: y ** 3 + (1.0 + (_E1 @ a) ** 2) * y - _E2 @ b,
+      lambda v: rootfinder(v.fcn, torch.zeros(7, dtype=DT), params=v.params, method="broyden1", f_tol=1e-12, x_tol=1e-12, maxiter=300),
+      rtol=1e-5, atol=1e-7),
+    # the Hessian operator of a (module-held) energy handed to a matrix-free solver (a Newton-CG step), gradients w.r.t. the
+    # tensors of the energy (round-4 seed C09/11: the operator shared its parameter list with the pure function)
+    W("hess_solve_cg", lambda x, a, b: (a * x ** 4 + (1.0 + b * b) * x * x).sum() + 0.1 * (x.sum()) ** 2,
+      lambda v: solve(hess(v.fcn, params=(_x0(), *v.params), idxs=0), torch.tensor([[1.0], [-2.0], [0.5]], dtype=DT), method="cg",
+                      rtol=1e-12, atol=1e-14, bck_options=dict(method="cg", rtol=1e-12, atol=1e-14)),
+      rtol=1e-6, atol=1e-8),
 ]
 for w in WORKLOADS:
     w.forward = _quiet(w.forward)
+_gE = torch.Generator().manual_seed(99)
+_E1 = 0.5 * torch.randn(7, 3, dtype=DT, generator=_gE)
+_E2 = torch.randn(7, 3, dtype=DT, generator=_gE)
 
 
 def _x0():
